@@ -10,15 +10,20 @@ From Verif Require Import Common.SerialUtil.
    Unfold everything except the comparison, then split on one test at a time;
    in the equal branch the variable is replaced by the constant so that the
    remaining tests on it compute. *)
+(* constant-first tests [Z.eqb c x] are turned round first ([cbn] would open them) *)
+Ltac z_orient :=
+  repeat match goal with
+  | |- context [Z.eqb ?a ?b] => is_var b; tryif is_var a then fail else rewrite (Z.eqb_sym a b)
+  end.
+
 Ltac z_split_step :=
   match goal with
   | |- context [Z.eqb ?a ?b] => is_var a; destruct (Z.eqb_spec a b); [subst a; cbn [Z.eqb Pos.eqb]|]
-  | |- context [Z.eqb ?a ?b] => is_var b; destruct (Z.eqb_spec a b); [subst b; cbn [Z.eqb Pos.eqb]|]
   end; lazy beta iota.
 
 Ltac z_tree_go := first [ reflexivity | z_split_step; z_tree_go | exfalso; lia ].
 
-Ltac z_decision_tree := cbv -[Z.eqb Pos.eqb]; z_tree_go.
+Ltac z_decision_tree := cbv -[Z.eqb Pos.eqb]; z_orient; z_tree_go.
 
 (* ---- trees of tests on one string variable ----
    [String.eqb raw c], [String.eqb c raw], [eqfold raw c], [eqfold c raw]:
